@@ -466,6 +466,18 @@ def run(tier, seed, replay):
                                 Am[tuple(nzr)] += frac * thr * (Bm[tuple(nzr)] / abs(Bm[tuple(nzr)]))
                                 want_eq = bool(np.allclose(Am, Bm, rtol=rtol_, atol=atol_))
                                 attempt("isequal-tolerance", lambda: bool(_data.isequal(build(Am, fa, rng), build(Bm, fb, rng), atol_, rtol_)), [fa, fb], None, want_eq, data=data)
+                if r == c == 1:
+                    # 1x1: "ket", "bra" and "operator" coincide, so there is no single reference, but whatever meaning a routine
+                    # picks it picks for every storage form: compared with the all-Dense call
+                    A1, B1 = np.array([[2.0 - 1.0j]]), np.array([[1.0 + 1.0j]])
+                    DA1, DB1 = _data.Dense(A1), _data.Dense(B1)
+                    XA1, XB1 = build(A1, fa, rng), build(B1, fb, rng)
+                    for nm1, f1 in (("expect", lambda o_, s_: _data.expect(o_, s_)), ("inner", lambda o_, s_: _data.inner(o_, s_)), ("inner_op", lambda o_, s_: _data.inner_op(s_, o_, s_))):
+                        try:
+                            want1 = complex(f1(DA1, DB1))
+                        except Exception:       # noqa
+                            continue
+                        attempt(nm1 + "-1x1", lambda: f1(XA1, XB1), [fa, fb], None, want1, data=data)
                 if c == 1 and r > 1:
                     attempt("inner", lambda: _data.inner(XA, XB), [fa, fb], None, np.vdot(A, B), data=data)
                     attempt("inner-braket", lambda: _data.inner(build(A.conj().T, fa, rng), XB), [fa, fb], None, np.vdot(A, B), data=data)
